@@ -47,6 +47,7 @@ func runC17(c *Ctx) {
 	info := pk.TypesInfo
 	// (1) isFileToGenerate: the whole decision, as a truth table (robust to the shape of the control flow)
 	c17GenerateTable(c)
+	batchKeyRule(c, "BATCH-KEY")
 	// ImagesToCodeGeneratorRequests: fill loop before request loop
 	if fr := p.Func("private/bufpkg/bufimage", "ImagesToCodeGeneratorRequests"); fr != nil {
 		g := p.CFGOf(fr.Decl.Body, info)
